@@ -16,4 +16,10 @@ TEXT["C12"] = dict(
     level_note=NOTE_COMMON + "Counts are Nat (u32 overflow out of scope). Theorems are over atomic steps; concurrent interleavings of clone/drop are covered because each is one critical section (C17).",
     technique="Lean 4 inductive invariant over the atomic-channel model + sequential differential",
 )
+TEXT["C19"] = dict(
+    level_text="Proof: Lean theorems c19_drain / c19_releases / c19_closed / c19_receivers_waiting / c19_nonblocking hold for every state of the model (any buffer, any list of blocked sync or pending async senders, or blocked receivers): drain_into returns buffer ++ blocked senders' values oldest first, the separately computed count equals the number appended, exactly the taken senders are released with success, a closed channel yields an error and no change, and no waiter is ever registered. Tied to the code by the sequential differential on drain-centred sequences (pending async senders, pre-filled vectors with and without spare capacity).",
+    design_ref="DESIGN.md §5 C19",
+    level_note=NOTE_COMMON + "Vec::reserve arithmetic is modelled as a no-op on contents (the driver checks the prefix).",
+    technique="Lean 4 theorems over the critical-section model + sequential differential",
+)
 NOT_YET = {}
